@@ -449,7 +449,8 @@ macro_rules! ecdsa_impl {
                     let pr = Point::mulgen(&k);
                     let enc = pr.encode_uncompressed();
                     let r = Scalar::decode_reduce(&{ let mut x = enc[1..33].to_vec(); x.reverse(); x });
-                    let s = match rng.below(4) { 0 => Scalar::ONE, 1 => -Scalar::ONE, _ => Scalar::decode_reduce(&rng.bytes(48)) };
+                    let s = match rng.below(6) { 0 => Scalar::ONE, 1 => -Scalar::ONE, 2 => Scalar::decode_reduce(&rng.bytes(20)), 3 => Scalar::decode_reduce(&rng.bytes(27)),
+                                                 _ => Scalar::decode_reduce(&rng.bytes(48)) };
                     let hl = *rng.pick(&[20usize, 32, 40]);
                     let hv = rng.bytes(hl);
                     let h = Scalar::decode_reduce(&{ let mut x = hv[..hv.len().min(32)].to_vec(); x.reverse(); x });
@@ -460,6 +461,12 @@ macro_rules! ecdsa_impl {
                     let mut sig = { let mut b = r.encode().to_vec(); b.reverse(); b };
                     sig.extend_from_slice(&{ let mut b = s.encode().to_vec(); b.reverse(); b });
                     verify(tr, &pk, &sig, &hv);
+                    // the non-canonical alias s + n of a valid s (it fits 32 bytes when s is small): must be rejected
+                    {
+                        let sv = BigUint::from_bytes_le(&s.encode());
+                        let alias = &sv + &n;
+                        if alias.bits() <= 256 { let mut sg = sig[..32].to_vec(); sg.extend_from_slice(&be32(&alias)); verify(tr, &pk, &sg, &hv); }
+                    }
                     // the point-at-infinity outcome: Q = -(h/r)*G makes [h/s]G + [r/s]Q the neutral
                     let q = -(Point::mulgen(&(h / r)));
                     if q.isneutral() == 0 { verify(tr, &q.encode_uncompressed().to_vec(), &sig, &hv); }
@@ -637,6 +644,34 @@ macro_rules! jq_impl {
                     // public keys that are not valid elements / neutral / wrong length
                     for bad in [vec![0u8; 32], vec![0xFFu8; 32], rng.bytes(32), pk[..31].to_vec()] { verify(tr, &bad, &sig, "", &data); }
                 }
+                // signatures built with a chosen nonce k, so that s = k + c*d lands in a chosen window: just below the order,
+                // just above 0, around 2^254 (the order of jq255s is above 2^254, that of jq255e below), around 2^253
+                if $cname != "gls254" {
+                    use crrl::blake2s::Blake2s256;
+                    let two = |e: usize| BigUint::from(1u32) << e;
+                    let ks: Vec<BigUint> = vec![two(254), two(254) - two(127), &n - two(127), &n - two(126), two(253), two(253) - two(127),
+                                                &n - 1u32, BigUint::from(1u32), two(128), (two(254) + two(125)) % &n];
+                    for (i, kv) in ks.iter().enumerate() {
+                        for dv in [BigUint::from(1u32), &n - 1u32, BigUint::from(2u32)] {
+                            let kv = kv % &n;
+                            if kv == BigUint::from(0u32) { continue; }
+                            let (ksc, dsc) = (Scalar::decode_reduce(&le32(&kv)), Scalar::decode_reduce(&le32(&dv)));
+                            let pk = Point::mulgen(&dsc).encode().to_vec();
+                            let r_enc = Point::mulgen(&ksc).encode();
+                            // k = 2^254 with d = 1: s = 2^254 + c stays below the order of jq255s only for one challenge in six
+                            let reps = if i == 0 && dv == BigUint::from(1u32) { 12 } else { 1 };
+                            for rep in 0..reps {
+                            let data = rng.bytes(1 + i + rep);
+                            let mut sh = Blake2s256::new();
+                            sh.update(&r_enc); sh.update(&pk); sh.update(&[0x52u8]); sh.update(&data);
+                            let mut cb = [0u8; 16]; cb.copy_from_slice(&sh.finalize()[0..16]);
+                            let sv = ksc + dsc * Scalar::from_u128(u128::from_le_bytes(cb));
+                            let mut sig = cb.to_vec(); sig.extend_from_slice(&sv.encode());
+                            verify(tr, &pk, &sig, "", &data);
+                            }
+                        }
+                    }
+                }
                 // ECDH: both sides of every pair from a pool that contains public keys whose first byte is
                 // 0x00 / 0xFF (boundary of the lexicographic ordering), and failure cases
                 let mut pool = keys.clone();
@@ -767,7 +802,8 @@ pub fn run_trunc(tr: &mut Trace, rng: &mut Rng, what: &str, n: usize, part: usiz
         for i in 0..n {
             let sk = PrivateKey::from_seed(&rng.bytes(32));
             let pk = sk.to_public_key();
-            let hv = rng.bytes(32);
+            // hash values of any length: shorter ones are right-aligned, longer ones truncated to 32 bytes
+            let hv = rng.bytes([32usize, 20, 32, 28, 31, 48, 32, 1, 33, 0][i % 10]);
             let sig = sk.sign_hash(&hv, b"").to_vec();
             let s2 = sig.clone();
             let e = Ev::new("p256_prepare").b("sig", &sig);
